@@ -52,7 +52,17 @@ def t_retry(ctx):
     calls = []   # dicts: start, end, how, exc
     res = {}
 
-    @helpers.retry(wait=wait, retries=r, timeout=TO, retry_on=retry_on, backoff_factor=bfv)
+    queued = ctx.cfg.get('queued', False)     # the call first has to queue for a one-slot semaphore held by another call
+    d_h = ctx.real('d_h', 0, 3) if queued else None
+    lax = bool(ctx.flag('lax')) if queued else True
+    skw = dict(semaphore_limit=1, semaphore_name='C19S', semaphore_scope='global', semaphore_timeout=10.0, semaphore_lax=lax) if queued else {}
+
+    @helpers.retry(wait=0, retries=0, timeout=20, **skw)
+    async def holder():
+        await asyncio.sleep(d_h)
+        return 'held'
+
+    @helpers.retry(wait=wait, retries=r, timeout=TO, retry_on=retry_on, backoff_factor=bfv, **skw)
     async def f():
         i = len(calls)
         c = dict(i=i, start=loop.time(), end=None, how=None, exc=None)
@@ -82,6 +92,9 @@ def t_retry(ctx):
 
     async def main():
         if cancel:
+            if queued:
+                ht = asyncio.ensure_future(holder())
+                await asyncio.sleep(0)
             t = asyncio.ensure_future(f())
             await asyncio.sleep(t_c)
             res['cancel_at'] = loop.time()
@@ -123,6 +136,8 @@ def t_retry(ctx):
             ctx.witness('finished before cancel')
             return
         ctx.witness('cancelled in flight')
+        if queued and not calls:
+            ctx.witness('cancelled while queued for the slot')
         ctx.check('C19.cancel_not_swallowed', isinstance(res.get('exc'), asyncio.CancelledError), got=repr(res.get('exc', res.get('ret'))))
         ctx.check('C19.cancel_prompt', res['end'] == res['cancel_at'])
         late = [c for c in calls if bool(c['start'] > res['cancel_at'])]
@@ -177,6 +192,7 @@ def jobs(tier):
         out.append(Job('C19', 'r.retry', t_retry, dict(rmax=2, bf='1', retry_on='boom'), witnesses=('retried',)))
         out.append(Job('C19', 'r.retry', t_retry, dict(rmax=1, bf='1', retry_on='empty')))
         out.append(Job('C19', 'r.retry', t_retry, dict(rmax=1, bf='1', retry_on='boom', sub=True), witnesses=('retried',)))
+        out.append(Job('C19', 'r.retry', t_retry, dict(rmin=0, rmax=0, bf='1', retry_on='none', cancel=True, queued=True), witnesses=('cancelled while queued for the slot',)))
         out.append(Job('C19', 'r.retry', t_retry, dict(rmax=1, bf='2', retry_on='boom+timeout', cancel=True),
                        witnesses=('cancelled in flight', 'finished before cancel')))
     else:
@@ -188,4 +204,5 @@ def jobs(tier):
             for r in (0, 1, 2):
                 out.append(Job('C19', 'r.retry', t_retry, dict(rmin=r, rmax=r, bf='2', retry_on=ro, cancel=True), max_paths=20000))
         out.append(Job('C19', 'r.retry', t_retry, dict(rmin=1, rmax=2, bf='1', retry_on='boom+timeout', sub=True), witnesses=('retried',), max_paths=20000))
+        out.append(Job('C19', 'r.retry', t_retry, dict(rmin=0, rmax=1, bf='2', retry_on='boom', cancel=True, queued=True), witnesses=('cancelled while queued for the slot',), max_paths=20000))
     return out
